@@ -48,6 +48,9 @@ func checkC30(c *core.Ctx) {
 	ruleChartCodec(c)
 	ruleCodecPairs(c)
 	ruleSchemaStorage(c)
+	ruleFreshDecodeTarget(c)
+	ruleImportSchemaVerbatim(c)
+	ruleChartLookupFixedFinal(c)
 }
 
 // constKeyName resolves an expression to the name of a package-level string constant.
